@@ -1,9 +1,9 @@
 package chainsim
 
 import (
+	"fmt"
 	"runtime/debug"
 	"strings"
-	"fmt"
 	"testing"
 	"testing/synctest"
 
